@@ -249,7 +249,9 @@ def _execute_case(mod, case, env):
         # run is a function of (tree, tier, VERIF_SEED) only. Checks that enumerate entropy streams nest their own seam.
         from mc import seams as _seams
         _seams.reset_global_rngs(0)  # legacy global generators (torch.rand initial parameters, np.random) start every case from the same state
-        with _seams.EntropySeam(0):
+        # uninitialised memory (np.empty / torch.empty looked up through the module namespaces) is NaN-filled: a result that
+        # depends on it is deterministic and visible
+        with _seams.EntropySeam(0), _seams.UninitSeam():
             mod.run_case(case, out, env)
         if guard is not None:
             for qual, idx in guard.drain():
